@@ -47,7 +47,7 @@ def noise(g, nodes):
 def _cases(draw):
     prof = dict(gen.PROFILES["struct"], p_repeat_count=0.4, p_or_other=0.2, p_params=0.6, p_appearance=0.3, p_custom_body=0.1,
                 p_external=0.06, p_entities=0.15, p_trigger=0.08, p_calc_on_visible=0.08, p_label_on_hidden=0.15, p_group_hint=0.12,
-                p_tag_names=0.05, p_osm=0.05, p_reuse_names=0.2)
+                p_tag_names=0.05, p_osm=0.05, p_reuse_names=0.2, p_table_list=0.1, p_table_list_nested=0.4)
     g = gen.G(draw, prof)
     form = gen.build_form(draw, prof, g=g)
     if g.p("_", 0.5):
@@ -73,7 +73,7 @@ def parse_params(text):
     for p in parts:
         k, _, v = p.partition("=")
         k = k.strip().lower()
-        out[k] = v.strip() if k in ("label", "value") else v.strip().lower()
+        out[k] = v.strip() if k in ("label", "value", "app") else v.strip().lower()     # (an Android package name is case-sensitive)
     return out
 
 
@@ -107,6 +107,8 @@ def expected_attrs(n: expect.RNode):
             a["accuracyThreshold"] = prm["capture-accuracy"]
         if "warning-accuracy" in prm:
             a["unacceptableAccuracyThreshold"] = prm["warning-accuracy"]
+    if base == "image" and "app" in prm and (not ap or ap == "annotate"):
+        a["intent"] = prm["app"]      # documented: the camera app to launch, as typed (not with the draw/signature/... appearances)
     if base == "range":
         a["start"] = prm.get("start", "1")
         a["end"] = prm.get("end", "10")
